@@ -43,9 +43,10 @@ RULE = (
 ASSUMPTIONS = [
     '"required identifying attribute" = id of Lexicon, LexiconExtension, LexicalEntry, Sense, '
     'Synset, External{LexicalEntry,Form,Sense,Synset}, Requires, Extends; version of Lexicon, '
-    'LexiconExtension, Requires, Extends; Sense@synset; relation target. Not: Form@id and '
-    'SyntacticBehaviour@id (#IMPLIED), label/language/email/license, ili, relType, writtenForm '
-    '(required but not identifying; the property does not name them)',
+    'LexiconExtension, Requires, Extends; Sense@synset; relation target; writtenForm of Lemma and '
+    'Form (what identifies a form within its entry; wn rejects its absence in every context). Not: '
+    'Form@id and SyntacticBehaviour@id (#IMPLIED), label/language/email/license, ili, relType, '
+    'partOfSpeech (required but not identifying; the property does not name them)',
     '"element that does not exist in its declared version" = a name outside the element table of '
     'the declared version; known elements at a wrong place are not generated',
     'must-reject header faults are those the statement names (no XML declaration, no DOCTYPE or '
